@@ -20,7 +20,16 @@ extern "C" int LLVMFuzzerTestOneInput(const uint8_t * data, size_t size)
   }
   bxdecay0::event_reader::config_type cfg; cfg.event_files = files; cfg.start_event = start; cfg.max_nb_events = max; cfg.zero_event_time = zero;
   try {
-    bxdecay0::event_reader rd(cfg, 0);
+    bxdecay0::event_reader rd(0);
+    if ((nfiles + start + max) % 3 == 0) {
+      // a reader object that first met a configuration it could not apply (an empty file followed by a missing one): it must refuse it cleanly and
+      // then serve the input under test like a new object
+      std::string ws = scratch() + "/ws-only.d0t"; const char * blanks = "  \n\n"; write_file(ws, (const uint8_t *)blanks, 4);
+      bxdecay0::event_reader::config_type bad; bad.event_files = {ws, scratch() + "/does-not-exist.d0t"};
+      try { rd.set_configuration(bad); violation("event_reader accepted a configuration that names a missing file (reuse-after-failed-configuration)"); } catch (std::exception &) { labels()["refused_missing_file_first"]++; }
+      if (rd.is_configured()) violation("event_reader is_configured() after a refused configuration (reuse-after-failed-configuration)");
+    }
+    rd.set_configuration(cfg);
     labels()["configured"]++;
     size_t loads = 0, bound = size + 8;
     while (rd.has_next_event()) {
